@@ -350,6 +350,11 @@ def gen_main(r, tier):
                     link[1].append(["title", "long " + "t" * r.choice([150, 280])])
             while op.get("links") and len(lf_write(op["links"]).encode("utf-8")) > MAX_BODY:
                 op["links"].pop()
+    if r.chance(0.05):
+        # a registrant with very many resources (an aggregating gateway): hundreds of links in one registration or update
+        cand = [op for op in ops if op.get("links") is not None and op["op"] in ("reg", "upd") and "raw" not in op]
+        for op in (r.sample(cand, min(len(cand), r.choice([1, 1, 2]))) if cand else []):
+            op["links"] = [["/k%d" % i, []] for i in range(r.choice([200, 255, 256, 257, 300, 520]))]
     net = faults.swarm(r, kinds=("drop", "dup", "delay"), fault_free=0.55, heavy=0.05)
     if net.get("delay_max", 0) > 3.0:
         net["delay_max"] = 3.0
@@ -1010,7 +1015,10 @@ def execute(sim, scn):
 
     async def do_request(c, code, path, q=(), payload=b"", cf=None):
         ctx, addr = clients[min(c, nclients - 1)]
-        tr, resp, err = await drv.request(ctx, code, path, [subst(s) for s in q], payload, cf)
+        # (a body beyond one block still travels in ONE datagram -- the network here has no size limit --, so that the
+        # write keeps happening at one known instant)
+        tr, resp, err = await drv.request(ctx, code, path, [subst(s) for s in q], payload, cf,
+                                          handle_blockwise=len(payload) <= 1000)
         if err is not None:
             # let stragglers (delayed copies) reach the server before anything else is sent
             await asyncio.sleep(20.0)
@@ -1037,8 +1045,6 @@ def execute(sim, scn):
 
     async def op_reg(op):
         path = ALIAS_PATH if op.get("alias") else RD_PATH
-        if len(body_of(op)) > 1000:
-            return  # would go block-wise: no single instant of the write
         tr, resp, rcode, loc, src_base = await do_request(op["c"], POST, path, op["q"], body_of(op), op.get("cf"))
         if tr.t_srv is None or rcode is None:
             return  # never reached the server (or: reached it but no answer was ever produced)
@@ -1099,8 +1105,6 @@ def execute(sim, scn):
         loc = resolve_loc(op["loc"])
         code = POST if op["m"] == "post" else PUT
         has_body = op.get("links") is not None or "raw" in op
-        if has_body and len(body_of(op)) > 1000:
-            return
         tr, resp, rcode, _, src_base = await do_request(op["c"], code, loc, op["q"], body_of(op) if has_body else b"",
                                                         op.get("cf") if has_body else None)
         if tr.t_srv is None or rcode is None:
